@@ -18,8 +18,9 @@ package netstate
 
 //@ func (*Watcher).Subscribe
 //@   opt guarded m mu [C19]
-//@   requires P1: wf(w.m) && lockGet(ghost.lockDepth, fieldaddr(w, "mu")) == 0
-//@   assigns everything
+//@   requires P1: wfA(w.m) && lockGet(ghost.lockDepth, fieldaddr(w, "mu")) == 0
+//@   assigns ghost.lockDepth, ghost.chIface, ghost.chMask, ghost.chIdx, ghost.mapIface, key(MD_Int_Int), key(MV_Int_Int), key(MD_Int_Slice), key(MV_Int_Slice), brk
+//@   opt frame [C19]
 //@   at return all: ghost.chIface = store3(ghost.chIface, result, iface) ; ghost.chMask = store3(ghost.chMask, result, changes) ; ghost.chIdx = store3(ghost.chIdx, result, len(w.m[iface][changes]) - 1) ; ghost.mapIface = store3(ghost.mapIface, w.m[iface], iface)
 //@   ensures E1 [C19]: result != nil && fresh(result) && chanCap(result) == 8
 //@   ensures E2 [C19]: has(w.m, iface) && w.m[iface] != nil
@@ -27,7 +28,7 @@ package netstate
 //@   ensures E5 [C19]: w.m[iface][changes][len(w.m[iface][changes]) - 1] == result
 //@   ensures E3 [C19]: lockGet(ghost.lockDepth, fieldaddr(w, "mu")) == 0
 //@   ensures E6 [C19]: wfA(w.m)
-//@   ensures E7: wfB(w.m)
+//@   ensures E7: old(wfB(w.m)) ==> wfB(w.m)
 //@   opt safety [C19]
 
 //@ func (*Watcher).notify
